@@ -197,6 +197,12 @@ EXTRA_API = [
     ("if a:\n    x = 1\nx = 1\n", ["x = 1", "a"]),
     ("x = 1\n", ["x = 1", "x", "1"]),
     ("(a,\n b) = c\nd = (a)\n", ["a", "{{x}} = {{y}}"]),
+    # opt-out comments concern rewriting, not searching: every entry point of the search API sees the same matches on such lines
+    ("x = 1  # pyrefact: ignore\ny = 2\n", ["x = {{value}}", "{{a}} = {{b}}", "x = 1", "1"]),
+    ("x = 1\ny = 2  # pyrefact: ignore\n", ["{{a}} = {{b}}", "y = 2", "x = 1\ny = 2"]),
+    ("def f():  # pyrefact: ignore\n    return 1\n", ["return {{v}}", "def {{n}}():\n    return 1", "def f():\n    return 1"]),
+    ("# pyrefact: skip_file\nx = 1\ny = x\n", ["x", "{{a}} = {{b}}", "x = 1\ny = x"]),
+    ("x = (1,  # pyrefact: ignore\n     2)\nz = 3\n", ["{{a}} = {{b}}", "2", "x = (1, 2)"]),
 ]
 
 
